@@ -42,8 +42,9 @@ RULE = ("Cases: n uniform in 1..6, m in {n, n+1, 2n, 2n+3} (also m < n: max(1, n
         "that mislabelled points show up even when the point set is tiny; 3% of cases use random initial directions with "
         "init.run_in_parallel (own signature).  Recording: call number c belongs to point number c//k + 1 (checked: all "
         "calls of a point have the same x).  A case is NON-TRIVIAL iff a Jacobian was returned, its named point set has "
-        "cond <= 1e10 and at least one named point is not from the initial design of the first run (point number > "
-        "initial npt), i.e. the set went through replacements; restart counts, exit flags, Delta and cond decades are in "
+        "cond <= 1e10, at least one named point is not from the initial design of the first run (point number > "
+        "initial npt), i.e. the set went through replacements, and the comparison is sharp (tol <= 1e-2*|J|; when the "
+        "named points are within ~1e-12 of each other the rounding allowance exceeds |J| and the check is vacuous); restart counts, exit flags, Delta and cond decades are in "
         "stats.")
 
 
@@ -334,8 +335,8 @@ def run_case(c):
     posmax = float(np.max(np.abs(X) / sc[None, :]) + np.max(np.abs(S)))
     tol = cond * (1e-8 * Jmax + CROUND * U * (Jmax * posmax + Rmax) / Delta)
     err = float(np.max(np.abs(Js - Jfit)))
-    info.update(checked=True, err_over_tol=err / tol, initial_only=bool(max(E) <= c['npt']))
-    info['nontrivial'] = bool(max(E) > c['npt'])
+    info.update(checked=True, err_over_tol=err / tol, initial_only=bool(max(E) <= c['npt']), reltol=tol / Jmax)
+    info['nontrivial'] = bool(max(E) > c['npt'] and tol <= 1e-2 * Jmax)
     if not err <= tol:
         # diagnose: would it match without un-scaling?  (cheap hint for the reader)
         hint = ''
@@ -394,6 +395,8 @@ def run_task(task):
             r = info['err_over_tol']
             _bump(stats, 'err/tol=%s' % ('<=1e-6' if r <= 1e-6 else ('<=1e-3' if r <= 1e-3 else ('<=1' if r <= 1 else '>1'))))
             _bump(stats, 'set=%s' % ('initial_design_only' if info['initial_only'] else 'replaced_points'))
+            rt = info['reltol']
+            _bump(stats, 'tol/|J|=%s' % ('<=1e-6' if rt <= 1e-6 else ('<=1e-4' if rt <= 1e-4 else ('<=1e-2' if rt <= 1e-2 else '>1e-2 (vacuous)'))))
             if info.get('linear_checked'):
                 _bump(stats, 'linear_vs_A_checked')
         if sample is None and info.get('nontrivial') and info['nruns'] > 1:
